@@ -1,6 +1,8 @@
 use std::{
     any::{Any, TypeId},
+    borrow::Cow,
     collections::{HashMap, HashSet},
+    marker::PhantomData,
     ops::Deref,
     sync::Arc,
 };
@@ -9,21 +11,21 @@ use async_graphql_parser::types::ExecutableDocument;
 use futures_util::stream::{self, BoxStream, FuturesOrdered, StreamExt};
 
 use crate::{
-    BatchRequest, BatchResponse, CacheControl, ContextBase, EmptyMutation, EmptySubscription,
-    Executor, InputType, ObjectType, OutputType, QueryEnv, Request, Response, ServerError,
-    ServerResult, SubscriptionType, Variables,
+    BatchRequest, BatchResponse, CacheControl, Context, ContextBase, ContextSelectionSet,
+    EmptySubscription, Executor, InputType, ObjectType, OutputType, QueryEnv, Request, Response,
+    ServerError, ServerResult, SubscriptionType, Value, Variables,
     context::{Data, QueryEnvInner},
     custom_directive::CustomDirectiveFactory,
     extensions::{ExtensionFactory, Extensions},
     parser::{
         Positioned, parse_query,
         types::{
-            Directive, DocumentOperations, OperationType, Selection, SelectionSet,
+            Directive, DocumentOperations, Field, OperationType, Selection, SelectionSet,
             VariableDefinition,
         },
     },
     registry::{Registry, SDLExportOptions},
-    resolver_utils::{resolve_container, resolve_container_serial},
+    resolver_utils::{ContainerType, resolve_container, resolve_container_serial},
     subscription::collect_subscription_streams,
     types::QueryRoot,
     validation::{ValidationMode, check_rules},
@@ -495,7 +497,8 @@ where
                 if self.0.env.registry.introspection_mode == IntrospectionMode::IntrospectionOnly
                     || env.introspection_mode == IntrospectionMode::IntrospectionOnly
                 {
-                    resolve_container_serial(&ctx, &EmptyMutation).await
+                    let mutation = IntrospectionOnlyMutation::<Mutation>(PhantomData);
+                    resolve_container_serial(&ctx, &mutation).await
                 } else {
                     resolve_container_serial(&ctx, &self.0.mutation).await
                 }
@@ -689,6 +692,37 @@ where
         session_data: Option<Arc<Data>>,
     ) -> BoxStream<'static, Response> {
         Schema::execute_stream_with_session_data(&self, request, session_data.unwrap_or_default())
+    }
+}
+
+/// Stands in for the mutation root while only introspection is allowed: it
+/// has the name of the mutation type, so `__typename` and type conditions see
+/// the type the schema has, and resolves none of its fields.
+struct IntrospectionOnlyMutation<T>(PhantomData<T>);
+
+#[cfg_attr(feature = "boxed-trait", async_trait::async_trait)]
+impl<T: ObjectType> ContainerType for IntrospectionOnlyMutation<T> {
+    async fn resolve_field(&self, _ctx: &Context<'_>) -> ServerResult<Option<Value>> {
+        Ok(None)
+    }
+}
+
+#[cfg_attr(feature = "boxed-trait", async_trait::async_trait)]
+impl<T: ObjectType> OutputType for IntrospectionOnlyMutation<T> {
+    fn type_name() -> Cow<'static, str> {
+        T::type_name()
+    }
+
+    fn create_type_info(registry: &mut Registry) -> String {
+        T::create_type_info(registry)
+    }
+
+    async fn resolve(
+        &self,
+        ctx: &ContextSelectionSet<'_>,
+        _field: &Positioned<Field>,
+    ) -> ServerResult<Value> {
+        resolve_container_serial(ctx, self).await
     }
 }
 
